@@ -2835,3 +2835,82 @@ def rule_while_loops_make_progress(ctx, rep: Report, rid="V11", packages=("gtwra
     rep.units["while_loops"] = nloops
     if nfun < 100:
         raise AnalysisError(f"{rep.prop}/{rid}: only {nfun} functions scanned")
+
+
+_TEXT_NEUTRAL_CALLS = {"len", "print", "isinstance", "str", "type", "id", "repr"}
+
+
+def rule_text_reaches_the_parser_as_read(ctx, rep: Report, rid="L7", min_sites=3):
+    """Between `read()` and the parse the interface text is only put together (`+`, `+=`, a separating "\\n"): it is never taken
+    apart or rewritten by the generators themselves.  `str.splitlines()` also breaks at form feed, U+0085, U+2028 ... (a `//`
+    comment then ends early and the rest of its line is parsed as code), `strip` / `replace` / `expandtabs` / `re.sub` / a
+    `transformString` pre-pass change what separates two tokens (a comment removed without a blank in its place glues
+    `const/**/T` into one word).  Checked for every function that reads a file for parsing and for Module.parseString: any
+    method call or function call applied to the text (or a value computed from it) other than the parse itself is reported."""
+    prog = ctx.prog
+    n = 0
+    targets = []
+    for mi in sorted(prog.modules.values(), key=lambda m: m.rel):
+        if not mi.rel.startswith(("gtwrap/", "scripts/")) or mi.rel.startswith("gtwrap/xml_parser"):
+            continue
+        fns = [(name, f, None) for name, f in mi.functions.items()] + [(f"{q}.{m}", f, c) for q, c in mi.classes.items() for m, f in c.methods.items()]
+        for name, fn, ci in fns:
+            reads = [c for c in walk_no_nested(fn) if isinstance(c, ast.Call) and isinstance(c.func, ast.Attribute) and c.func.attr in ("read", "read_text", "readlines", "readline")]
+            is_entry = name.endswith("Module.parseString")
+            parses = [c for c in walk_no_nested(fn) if isinstance(c, ast.Call) and isinstance(c.func, ast.Attribute) and c.func.attr in ("parseString", "parse_string")]
+            if (reads and (parses or any(isinstance(c, ast.Call) and isinstance(c.func, ast.Attribute) and c.func.attr in ("wrap_file", "parseString")
+                                         for c in walk_no_nested(fn)))) or is_entry:
+                targets.append((mi, name, fn, reads, is_entry))
+    for mi, name, fn, reads, is_entry in targets:
+        tainted: Set[str] = set()
+        if is_entry:
+            ps = [p for p in func_params(fn) if p not in ("self", "cls")]
+            if ps:
+                tainted.add(ps[0])
+        read_ids = {id(c) for c in reads}
+
+        def carries(x) -> bool:
+            return any((isinstance(y, ast.Name) and y.id in tainted) or id(y) in read_ids for y in ast.walk(x))
+        changed = True
+        while changed:
+            changed = False
+            for st in walk_no_nested(fn):
+                tgt = None
+                if isinstance(st, ast.Assign) and len(st.targets) == 1 and isinstance(st.targets[0], ast.Name):
+                    tgt = st.targets[0].id
+                    val = st.value
+                elif isinstance(st, ast.AugAssign) and isinstance(st.target, ast.Name):
+                    tgt, val = st.target.id, st.value
+                elif isinstance(st, ast.Expr) and isinstance(st.value, ast.Call) and isinstance(st.value.func, ast.Attribute) \
+                        and st.value.func.attr in ("append", "extend") and isinstance(st.value.func.value, ast.Name) and st.value.args:
+                    tgt, val = st.value.func.value.id, st.value.args[0]
+                elif isinstance(st, (ast.For, ast.comprehension)) and isinstance(st.target, ast.Name):
+                    tgt, val = st.target.id, st.iter
+                if tgt is not None and tgt not in tainted and carries(val):
+                    tainted.add(tgt)
+                    changed = True
+        bad = []
+        for c in walk_no_nested(fn):
+            if not isinstance(c, ast.Call) or id(c) in read_ids:
+                continue
+            if isinstance(c.func, ast.Attribute):
+                recv_carries = carries(c.func.value)
+                args_carry = any(carries(a) for a in list(c.args) + [k.value for k in c.keywords])
+                if c.func.attr in ("parseString", "parse_string", "wrap_file", "write", "format", "append", "extend", "encode"):
+                    continue
+                if c.func.attr == "join" and isinstance(c.func.value, ast.Constant) and not recv_carries:
+                    continue                  # "\n".join(parts): putting together
+                if recv_carries or (args_carry and (dotted(c.func) or "").split(".")[0] in ("re", "textwrap", "string")) or \
+                        (args_carry and c.func.attr in ("transformString", "transform_string", "sub", "subn", "split", "scanString")):
+                    bad.append(f"line {c.lineno}: `{unparse(c)[:50]}`")
+            elif isinstance(c.func, ast.Name) and c.func.id not in _TEXT_NEUTRAL_CALLS and any(carries(a) for a in c.args):
+                if c.func.id in ("open",):
+                    continue
+                bad.append(f"line {c.lineno}: `{unparse(c)[:50]}`")
+        n += 1
+        rep.add(rid, f"{mi.rel}:{name}:the text is handed to the parser as it was read", not bad,
+                f"{bad[:3]}: the text is taken apart or rewritten before the grammar sees it, so what separates two tokens (a line break inside a comment, "
+                f"a comment between two words) is no longer what the file says", f"{mi.rel}:{fn.lineno}")
+    rep.units["functions_reading_interface_text"] = n
+    if n < min_sites:
+        raise AnalysisError(f"{rep.prop}/{rid}: only {n} functions that read interface text for parsing were found")
